@@ -19,9 +19,9 @@ func with(base propFn, extra ...propFn) propFn {
 
 // Registry maps a property id to the function that adds its obligations to the report.
 var Registry = map[string]func(*core.Prog, *core.Report){
-	"C01": with(C01, frameGroup, batchGroup, vf0RecordCarriesArgs, nil1LookupTested, err1WrapPolarity),
-	"C02": with(C02, frameGroup, batchGroup, mergeGroup, cf2RecoveryIgnoresLimit, cl1CloseAll, cl1bCloseLoopComplete, fn1NamesSortLikeIds),
-	"C03": with(C03, frameGroup, batchGroup, mergeGroup),
+	"C01": with(C01, frameGroup, batchGroup, vf0RecordCarriesArgs, nil1LookupTested, err1WrapPolarity, fid1IdsFromActive),
+	"C02": with(C02, frameGroup, batchGroup, mergeGroup, cf2RecoveryIgnoresLimit, cl1CloseAll, cl1bCloseLoopComplete, fn1NamesSortLikeIds, fid1IdsFromActive),
+	"C03": with(C03, frameGroup, batchGroup, mergeGroup, fid1IdsFromActive),
 	"C04": with(C04, batchGroup, frameGroup, ps3Rotate),
 	"C05": with(C05, batchGroup, vf0RecordCarriesArgs, nil1LookupTested, err1WrapPolarity),
 	"C06": with(C06, mergeGroup),
